@@ -14,7 +14,7 @@ One property per invocation:
 import argparse
 import hashlib
 import json
-import os
+import os, struct
 import subprocess
 import sys
 import time
@@ -52,9 +52,17 @@ def regenerate():
     Returns (ok, info). Also validates the translator by round trip (model driver reads the table back)."""
     blocks, rc, err, partial = run_impl([('C', default_cfg()), ('D', 'proto'), ('D', 'http'),
                                          ('A', 'udp', ip4('1.2.3.4'), ip4('10.0.0.1'), 1, 2, None, b'Gh0st'),
-                                         ('D', 'names')])
-    if rc != 0 or len(blocks) != 5:
+                                         ('D', 'names'),
+                                         ('A', 'udp', ip4('1.2.3.4'), ip4('10.0.0.1'), 1, 2, None, b'GET / HTTP/1.1\r\n\r\n'),
+                                         ('A', 'udp', ip4('1.2.3.4'), ip4('10.0.0.1'), 1, 111, None,
+                                          struct.pack('>IIIIIIIIII', 0x11223344, 0, 2, 100000, 3, 4, 0, 0, 0, 0))])
+    if rc != 0 or len(blocks) != 7:
         return False, 'dump failed: rc=%s %s' % (rc, err[:300])
+    # free text of the HTTP 401 response and of the rpcbind DUMP entries, from real replies
+    rc, out = sh([sys.executable, os.path.join(VERIF, 'harness', 'gen_lean.py'), 'texts', blocks[5]['r'].split()[0], blocks[6]['r'].split()[0],
+                  os.path.join(LEAN, 'Masscanned', 'Gen', 'Texts.lean')])
+    if rc != 0:
+        return False, 'translator failed on the reply texts (HTTP 401 / rpcbind DUMP): ' + out[-400:]
     npath = os.path.join(BUILD, 'names.dump')
     open(npath, 'w').write('\n'.join(blocks[4]['log']) + '\n')
     rc, out = sh([sys.executable, os.path.join(VERIF, 'harness', 'gen_lean.py'), 'names', npath,
